@@ -169,7 +169,10 @@ def gen_index(rng, n):
 def gen_series(rng):
     dt = rng.choice(list(PD_VALS))
     n = rng.choice([0, 1, 2, 2, 3, 3, 4])
-    return ["series", rng.choice(PD_NAMES), gen_index(rng, n), [rng.choice(PD_VALS[dt]) for _ in range(n)], dt]
+    index = gen_index(rng, n)
+    if n and rng.random() < 0.1:  # RangeIndex forms other than the default one
+        index = rng.choice([["range", n - 1, -1, -1], ["range", 0, 2 * n, 2], ["range", 5, 5 + n, 1]])
+    return ["series", rng.choice(PD_NAMES), index, [rng.choice(PD_VALS[dt]) for _ in range(n)], dt]
 
 
 def gen_frame(rng):
@@ -323,8 +326,11 @@ def build(spec, mode="plain"):
         return a
     if k == "series":
         _, name, index, vals, dt = spec
-        return pd.Series(list(vals), index=None if index is None else list(index), name=name,
-                         dtype=None if dt == "strs" else dt)
+        if index is not None and len(index) == 4 and index[0] == "range":
+            ix = pd.RangeIndex(index[1], index[2], index[3])   # e.g. what s[::-1] of a default-indexed Series carries
+        else:
+            ix = None if index is None else list(index)
+        return pd.Series(list(vals), index=ix, name=name, dtype=None if dt == "strs" else dt)
     if k == "frame":
         _, cols, index, data, dts = spec
         order = _ordered(list(range(len(cols))), mode)
@@ -857,6 +863,8 @@ def _mut_nd(rng, node):
 
 
 def _explicit_index(index, n):
+    if index is not None and len(index) == 4 and index[0] == "range":
+        return list(range(index[1], index[2], index[3]))
     return list(range(n)) if index is None else list(index)
 
 
@@ -878,6 +886,10 @@ def _mut_series(rng, node):
     if n >= 2:
         idx = _explicit_index(index, n)
         opts.append(("series-row-reorder", ["series", name, idx[1:] + idx[:1], vals[1:] + vals[:1], dt]))
+        if index is None:
+            # the rows of a default-indexed Series reversed with their labels (s[::-1]): still a RangeIndex, same label -> value
+            opts.append(("series-row-reorder", ["series", name, ["range", n - 1, -1, -1], list(reversed(vals)), dt]))
+            opts.append(("series-row-reorder", ["series", name, ["range", n - 1, -1, -1], list(reversed(vals)), dt]))
     return opts
 
 
